@@ -645,7 +645,7 @@ toslice_part(ak::Slice& slice, py::object obj) {
           }
 
           py::object intarray_object =
-            py::module::import("numpy").attr("asarray")(
+            py::module::import("numpy").attr("ascontiguousarray")(
               array, py::module::import("numpy").attr("int64"));
           py::array intarray = intarray_object.cast<py::array>();
           py::buffer_info intinfo = intarray.request();
